@@ -96,7 +96,8 @@ func FuzzC07_SetBytes(f *testing.F) {
 			return
 		}
 		v := fm.decode(b, true)
-		if kf := knownClassPt(fm, v.why, true); kf != "" && rep.Known("C07", kf) {
+		if pv, kf := fm.pinned(b, v, true); kf != "" {
+			fm.checkSetBytesPinned(t, b, pv)
 			return
 		}
 		fm.checkSetBytes(t, b, v, len(b)%2 == 1)
@@ -190,9 +191,7 @@ func FuzzC07_DecodeStream(f *testing.F) {
 		}
 		rd, rk := drawFixedReader(b, onebyte)
 		var cls []string
-		if kf := s.checkDecode(t, test, script, b, nosub, rd, rk, nil, &cls); kf != "" {
-			return
-		}
+		s.checkDecode(t, test, script, b, nosub, rd, rk, nil, &cls)
 		rep.Count(test, "streams", 1, 0, "")
 	})
 }
